@@ -1,9 +1,5 @@
 #!/bin/sh
-# quick checks over several seeds: sh vp/seedsweep.sh "2 3 4 5 6" C01 C02 ...
+# quick checks over several seeds: sh vp/seedsweep.sh "2 3 4 5 6" C01 C02 ...   (4 runs at a time)
 /venv/bin/python -m vp.setup > /dev/null 2>&1
 seeds="$1"; shift
-for p in "$@"; do
-  for s in $seeds; do
-    VERIF_SEED=$s VERIF_TIER=quick /venv/bin/python -m vp.check $p 2>&1 | grep -E "^\[C|^VIOLATION|^INFRA" | cut -c1-200
-  done
-done
+for p in "$@"; do for s in $seeds; do echo "$s $p"; done; done | xargs -P 4 -L 1 sh -c 'VERIF_SEED=$0 VERIF_TIER=quick /venv/bin/python -m vp.check $1 2>&1 | grep -E "^\[C|^VIOLATION|^INFRA" | cut -c1-200'
